@@ -263,8 +263,9 @@ package agent
 //@     invariant none: forall(k, 0, idx__, a.SocksSvr[k].Addr != Addr)
 //@     invariant same: sameslice(a.SocksSvr, old(a.SocksSvr)) && a.SocksSvr == old(a.SocksSvr)
 
+// the version parts may come from a third-party agent's registration ("OS Version": "5.15" gives two):
+// nothing is assumed about their number
 //@ func getWindowsVersionString(OsVersion []int) (r string)
-//@   requires five: len(OsVersion) >= 5
 //@   pure
 
 // ---------------------------------------------------------------------------
